@@ -226,6 +226,40 @@ func main() {
 	run.Set("schedules_cut_short_by_a_reader_stall_(see_C06)", stalls)
 	run.Set("hook_events_observed", hookEvents)
 
+	// (d) responses delivered before the caller began to wait
+	early, earlyBad := 0, 0
+	for _, legName := range []string{"adapter", "nats"} {
+		for _, n := range []int{1, 2, 5} {
+			for copies := 1; copies <= 2; copies++ {
+				if earlyBad >= 2 {
+					continue
+				}
+				var leg rig.MuxLeg
+				if legName == "adapter" {
+					leg = rig.NewAdapterLeg()
+				} else {
+					leg = rig.NewNatsLeg(nats)
+				}
+				r := rig.EarlyResponseTrial(leg, n, copies)
+				run.Eval(1)
+				early++
+				switch {
+				case r.Bad != "":
+					earlyBad++
+					cls := classify(r.Bad)
+					if strings.Contains(r.Bad, "the response was lost") {
+						cls = "response-before-wait-lost"
+					}
+					run.Violation("C01:early-response:"+legName+":"+cls, r.Bad, r.Witness)
+				case r.Inconclusive != "":
+					run.Inconclusive("early-response trial: " + r.Inconclusive)
+				default:
+					run.Distinct(fmt.Sprintf("early-response %s n=%d copies=%d", legName, n, copies))
+				}
+			}
+		}
+	}
+	run.Set("early_response_trials_(delivery_completed_before_the_caller_waited)", early)
 	stress(run, nats)
 	registryHistories(run)
 	raceStage(run)
